@@ -423,6 +423,16 @@ func orchestrate(propID, tier string, seed int64, replay string) int {
 		cases = []CaseSpec{cs}
 	} else {
 		cases = p.Cases(tier, seed)
+		if f := os.Getenv("VERIF_DEBUG_ONLY"); f != "" {
+			// debugging aid: keep only the cases that carry parameter f=1
+			var kept []CaseSpec
+			for _, c := range cases {
+				if c.P[f] == 1 {
+					kept = append(kept, c)
+				}
+			}
+			cases = kept
+		}
 		for i := range cases {
 			cases[i].Prop = propID
 			cases[i].Tier = tier
